@@ -3,7 +3,7 @@
    The digest H is an argument; its only law is the 256-bit bound.  Collision-freedom is never
    assumed: "zero only for equal addresses" is stated as "zero iff the digests are equal". *)
 From Coq Require Import List NArith String Bool Permutation.
-From V Require Import lib.Strs lib.Dec lib.XorMetric lib.Sha256 gen.Consts model.Closeness proofs.Closeness.
+From V Require Import lib.Strs lib.Dec lib.XorMetric lib.Sha256 gen.Consts model.Closeness proofs.Closeness proofs.ClosenessSched.
 Import ListNotations.
 Open Scope N_scope.
 
@@ -124,6 +124,35 @@ Theorem fetcher_order_closest_first : forall H self_peer keys,
   sorted_by (fun k => distance H (from_peer self_peer) (from_record_key k)) (fetcher_order H self_peer keys) /\
   Permutation (fetcher_order H self_peer keys) keys.
 Proof. exact fetcher_order_spec. Qed.
+
+(* the fetcher's scheduler, for EVERY backlog (any multiset of (key, type, holder) in any hash-map order,
+   the same (key, type) possibly pending from several holders) and EVERY in-flight set: what a scheduling
+   call hands out is ascending by distance to ourselves, pending and not in flight, one entry per
+   (key, type), within MAX_PARALLEL_FETCH; a pending (key, type) not in flight stays behind only when the
+   capacity is used up, and then it is at least as far as everything handed out *)
+Theorem fetch_schedule_closest_first : forall H self_peer maxp pending inflight,
+  let d := fun e : entry => distance H (from_peer self_peer) (from_record_key (entry_key e)) in
+  let out := next_keys_to_fetch H self_peer maxp pending inflight in
+  sorted_by d out /\
+  (forall p, In p out -> In p pending /\ ~ In (entry_kt p) inflight) /\
+  NoDup (map entry_kt out) /\
+  N.of_nat (List.length inflight + List.length out) <= N.max maxp (N.of_nat (List.length inflight)) /\
+  (forall e, In e pending -> ~ In (entry_kt e) inflight -> ~ In (entry_kt e) (map entry_kt out) ->
+     maxp <= N.of_nat (List.length inflight + List.length out) /\ forall p, In p out -> d p <= d e).
+Proof. intros H self_peer maxp pending inflight. exact (fetch_schedule_lemma H self_peer maxp pending inflight). Qed.
+
+(* the acceptor the correspondence run evaluates on what the real fetcher handed out is exactly that
+   statement, and the table of distances it uses is the real distance *)
+Theorem fetch_acceptor_is_spec : forall dk maxp pending inflight picked,
+  sched_ok dk maxp pending inflight picked = true <-> fetch_spec dk maxp pending inflight picked.
+Proof. exact sched_ok_iff_spec. Qed.
+
+Theorem fetch_history_agreement_sound : forall H self_peer maxp range keys steps,
+  agree_fetch_sched H self_peer maxp range keys steps = true ->
+  maxp = Consts.fetcher_max_parallel /\
+  forall st pre_p pre_o picked post_p post_o, In (st, (pre_p, pre_o), picked, (post_p, post_o)) steps ->
+    agree_fetch_step (key_dist H self_peer) maxp range st pre_p pre_o picked post_p post_o = true.
+Proof. exact agree_fetch_sched_sound. Qed.
 
 Theorem store_distance_index_exact : forall H, (forall x, H x < 2 ^ 256) -> forall self_peer keys,
   NoDup (records_by_distance H self_peer keys) /\
